@@ -25,4 +25,8 @@ def run(ctx):
     ctx.guard("table", "output_bytes", lambda: objects.check_output_bytes_default(ctx, P))
     ctx.guard("hmac-keys", "expand/derive/create", lambda: objects.check_hmac_keys(ctx, P))
     ctx.guard("hmac", "Mac", lambda: objects.check_hmac_mac(ctx, P))
+    # Hmac re-initialises its digest through Digest::reset between the inner and outer hash: for the BLAKE2 objects
+    # that is ContextDyn::reset_with_key / reset, which must rebuild the parameter block from the object's own outlen
+    from . import hashctx
+    ctx.guard("keyed-init", "blake2 reset", lambda: hashctx.check_all_blake2_keyed(ctx, P, which=("reset_with_key", "reset")))
     ctx.not_decided += ["the underlying digest functions (C01)"]
